@@ -143,9 +143,15 @@ func init() {
 			// (c) scaled
 			for _, s := range gen.ScaledFamilies(c.Thorough()) {
 				if strings.HasPrefix(s.Name, "pad") || strings.HasPrefix(s.Name, "lines") || strings.HasPrefix(s.Name, "atlimit") ||
-					strings.HasPrefix(s.Name, "stackdepth") || strings.HasPrefix(s.Name, "nest-") || strings.HasPrefix(s.Name, "vars-") {
+					strings.HasPrefix(s.Name, "stackdepth") || strings.HasPrefix(s.Name, "nest-") || strings.HasPrefix(s.Name, "vars-") || strings.HasPrefix(s.Name, "jump-") {
 					do(s.Src)
 				}
+			}
+			// the jump limit: an oversized operand followed by more source (so that "the next token" differs from "the last token")
+			big := "2" + strings.Repeat("+1", 33000)
+			for _, tail := range []string{"", "\nprint 3", " ;\n\n  print 4\n", " # c\nvar x = 1"} {
+				do("print false and " + big + tail)
+				do("def b { x = nil or (" + big + ")" + " }" + tail)
 			}
 			// (b) chains with exactly the k-th operation failing
 			for n := 2; n <= 6; n++ {
